@@ -25,7 +25,7 @@ class AV:
                  'label', 'pv', 'orth', 'lg', 'deg', 'unit', 'taint', 'lay',
                  'fn', 'env', 'self_', 'attrs', 'ext', 'keys', 'cls', 'src',
                  'note', 'uninit', 'maybe_none', 'nonneg', 'normed', 'idx', 'lo', 'nonlin',
-                 'delta', 'cnt', 'doc', 'deg_alt', 'red', 'rel')
+                 'delta', 'cnt', 'doc', 'deg_alt', 'red', 'rel', 'degq')
 
     def __init__(self, k, **kw):
         self.k = k
@@ -80,6 +80,10 @@ class AV:
         #   ('row', M, i)   this vector is row i of the matrix object M
         #   ('gramrow', i)  this vector is M @ M[i]: entry i is |M[i]|**2 >= 0
         self.rel = None
+        # True: the degree in the named scalars was lost (an operand of
+        # unknown degree, or a join of different degrees).  deg None WITHOUT
+        # this flag on an array means "does not depend on them" (degree 0).
+        self.degq = False
         for a, v in kw.items():
             setattr(self, a, v)
         if k in ('list', 'dict', 'obj') and self.oid is None:
@@ -409,6 +413,8 @@ def _join_facets(r, a, b):
                 break
         if alts and len(alts) <= 8:
             r.deg_alt = alts
+        r.degq = True
+    r.degq = bool(r.degq or a.degq or b.degq)
     r.unit = a.unit if a.unit == b.unit else None
     r.red = a.red if a.red == b.red else None
     r.taint = a.taint | b.taint
